@@ -79,7 +79,7 @@ def check(run: Run) -> None:
         add(e["src"], "edit:" + e["op"])
     for p in layouts(run, len(GATED), {1, 3, 5, 7, 12}):   # version-gated syntax under an old py_version
         add(place(sorted(GATED)[p["snippet"] - 1], p["layout"]), "gated:" + p["layout"]["id"])
-    for c in gens.indent(run):
+    for c in gens.indent(run, light=True):
         if c["outcome"] != "ok":
             add(c["src"], "indent.tla:" + c["outcome"])
     CH = 100000
